@@ -275,23 +275,23 @@ Fixpoint pad_loop (fuel : nat) (w : bytes) (written wanted : Z) : option bytes :
     end
   else Some w.
 
-Inductive trunc_res := TOk | TErr (e : gerr) | TFuel.
+Inductive trunc_res := TrOk | TrErr (e : gerr) | TrFuel.
 
 Definition res_truncate (bkt : str) (fuel : nat) (objs : gstore) (r : resource) (n : Z)
   : gstore * resource * trunc_res :=
-  if n <? 0 then (objs, r, TErr GOutOfRange) else
+  if n <? 0 then (objs, r, TrErr GOutOfRange) else
   match close_io bkt objs r with
-  | (o1, r1, Some e) => (o1, r1, TErr e)
+  | (o1, r1, Some e) => (o1, r1, TrErr e)
   | (o1, r1, None) =>
     match o_range bkt o1 (r_bk r1) (r_path r1) 0 n with
-    | inl e => (o1, r1, TErr e)
+    | inl e => (o1, r1, TrErr e)
     | inr d =>
       match pad_loop fuel d (zlen d) n with
-      | None => (o1, r1, TFuel)
+      | None => (o1, r1, TrFuel)
       | Some w =>
         match o_put bkt o1 (r_bk r1) (r_path r1) w with
-        | inl e => (o1, r1, TErr GOther)
-        | inr o2 => (o2, r1, TOk)
+        | inl e => (o1, r1, TrErr GOther)
+        | inr o2 => (o2, r1, TrOk)
         end
       end
     end
@@ -358,8 +358,8 @@ Definition gf_seek (bkt : str) (objs : gstore) (r : resource) (h : ghandle) (off
 
 Definition gf_truncate (bkt : str) (fuel : nat) (objs : gstore) (r : resource) (h : ghandle) (n : Z)
   : gstore * resource * trunc_res :=
-  if h_closed h then (objs, r, TErr GClosed) else
-  if h_flags h =? o_rdonly then (objs, r, TErr GReadOnly) else
+  if h_closed h then (objs, r, TrErr GClosed) else
+  if h_flags h =? o_rdonly then (objs, r, TrErr GReadOnly) else
   res_truncate bkt fuel objs r n.
 
 (* readdirImpl *)
